@@ -98,7 +98,7 @@ def extract(repo, failures):
     fl = func_body(bw, r"void\s+_flush_and_run_active_sinks\s*\([^)]*\)\s*\{")
     if fl:
         loop = fl[fl.find("for (auto const& sink : _active_sinks_cache)"):]
-        d["perSinkFlushCatch"] = loop.find("QUILL_TRY") >= 0 and loop.find("QUILL_TRY") < loop.find("flush_sink") and "is_valid_logger" in fl
+        d["perSinkFlushCatch"] = loop.find("QUILL_TRY") >= 0 and loop.find("QUILL_TRY") < loop.find("flush_sink")
     else:
         d["perSinkFlushCatch"] = False
 
